@@ -316,6 +316,27 @@ func jccTable(c *Ctx) (map[string]int64, map[string]ast.Node, *ast.FuncDecl) {
 			}
 		}
 	}
+	// the same rows kept in a package-level map[OcodeKind]byte the handler indexes
+	if len(tab) == 0 {
+		maps := kindByteMaps(c)
+		ast.Inspect(fd.Body, func(n ast.Node) bool {
+			ix, ok := n.(*ast.IndexExpr)
+			if !ok {
+				return true
+			}
+			id, ok := ast.Unparen(ix.X).(*ast.Ident)
+			if !ok {
+				return true
+			}
+			if v, ok := info.Uses[id].(*types.Var); ok && v.Pkg() != nil && v.Parent() == v.Pkg().Scope() {
+				for name, val := range maps[v.Name()] {
+					tab[name] = val
+					where[name] = ix
+				}
+			}
+			return true
+		})
+	}
 	return tab, where, fd
 }
 
